@@ -501,7 +501,7 @@ class C11(EvalFamProp):
             return io['checks'][0] if io['checks'] else None
         if io['cfg'].get('err') == 'HANG':
             return 'evaluation did not terminate'
-        if case.get('huge'):
+        if case.get('huge') and case['docs'] and case['docs'][0]['raw'].get('m'):
             if io['cfg'].get('err') == 'recursion':
                 return None          # the interpreter's own recursion limit: not what is under test
             if 'ok' not in io['cfg']:
